@@ -437,7 +437,7 @@ func init() {
 			var conds []string
 			ast.Inspect(fn, func(n ast.Node) bool {
 				if is, ok := n.(*ast.IfStmt); ok {
-					conds = append(conds, x.Src(is.Cond))
+					conds = append(conds, x.Src(nnf(is.Cond))) // modulo De Morgan: `!(hasQ || hasOther)` reads `!hasQ && !hasOther`
 				}
 				return true
 			})
